@@ -259,9 +259,12 @@ Variable shape_wrapper : N -> N -> tables -> string.
 Variable w_st : N -> tables -> list stmt.
 Variable s_st : N -> tables -> list stmt.
 Variable sw_st : N -> N -> tables -> list stmt.
-Hypothesis w_ok : forall id t, scansE sh cmd (append (wrapper id t) nl) (w_st id t).
+Variable Pt : tables -> Prop.     (* what the literal lists have to satisfy (C07: pwsh) *)
+Hypothesis w_ok : forall id t, Pt t -> scansE sh cmd (append (wrapper id t) nl) (w_st id t).
 Hypothesis s_ok : forall sid t, scansE sh cmd (append (shape_fn sid t) nl) (s_st sid t).
-Hypothesis sw_ok : forall id sid t, scansE sh cmd (append (shape_wrapper id sid t) nl) (sw_st id sid t).
+Hypothesis sw_ok : forall id sid t, Pt t -> scansE sh cmd (append (shape_wrapper id sid t) nl) (sw_st id sid t).
+
+Definition all_tables_ok (a : alltables) : Prop := forall id t, tables_of a id = Ok t -> Pt t.
 
 Definition group_stmtsG (a : alltables) (sid : N) (group : list N) : res (list stmt) :=
   match group with
@@ -274,35 +277,37 @@ Definition group_stmtsG (a : alltables) (sid : N) (group : list N) : res (list s
   end.
 
 Lemma members_scansG a sid ids texts :
+  all_tables_ok a ->
   omap (fun id => do t <- tables_of a id; Ok (append (shape_wrapper id sid t) EmitBash.nl)) ids = Ok texts ->
   exists stss,
     omap (fun id => do t <- tables_of a id; Ok (sw_st id sid t)) ids = Ok stss
     /\ scansE sh cmd (sconcat texts) (List.concat stss).
 Proof.
-  revert texts. induction ids as [|id ids IH]; cbn [omap]; intros texts H.
+  intros Hall. revert texts. induction ids as [|id ids IH]; cbn [omap]; intros texts H.
   - inversion H; subst. exists []. split; [reflexivity|]. apply scansE_nil.
   - apply obind_ok' in H. destruct H as [x [Hx H]]. apply obind_ok' in H. destruct H as [xs [Hxs H]].
     inversion H; subst; clear H.
     apply obind_ok' in Hx. destruct Hx as [t [Ht Hx]]. inversion Hx; subst; clear Hx.
     destruct (IH _ Hxs) as [stss [Hs Hn]]. exists (sw_st id sid t :: stss). split.
     + rewrite Ht. cbn [obind]. rewrite Hs. reflexivity.
-    + cbn [sconcat List.concat]. apply scansE_app; [apply sw_ok | exact Hn].
+    + cbn [sconcat List.concat]. apply scansE_app; [apply sw_ok; apply (Hall _ _ Ht) | exact Hn].
 Qed.
 
 Lemma group_scansG a sid group text :
+  all_tables_ok a ->
   group_block wrapper shape_fn shape_wrapper a sid group = Ok text ->
   exists sts, group_stmtsG a sid group = Ok sts /\ scansE sh cmd text sts.
 Proof.
-  intros H. destruct group as [|id [|id2 rest]]; [discriminate H | |].
+  intros Hall H. destruct group as [|id [|id2 rest]]; [discriminate H | |].
   - unfold group_block in H. unfold group_stmtsG.
     apply obind_ok' in H. destruct H as [t [Ht H]]. rewrite Ht. cbn [obind].
     eexists. split; [reflexivity|].
     assert (E : (wrapper id t ++ EmitBash.nl)%string = text) by congruence.
-    rewrite <- E. apply w_ok.
+    rewrite <- E. apply w_ok. apply (Hall _ _ Ht).
   - unfold group_block in H. unfold group_stmtsG.
     apply obind_ok' in H. destruct H as [lt [Hlt H]]. apply obind_ok' in H. destruct H as [ws [Hws H]].
     rewrite Hlt. cbn [obind].
-    destruct (members_scansG a sid _ _ Hws) as [stss [Hs Hn]]. rewrite Hs. cbn [obind].
+    destruct (members_scansG a sid _ _ Hall Hws) as [stss [Hs Hn]]. rewrite Hs. cbn [obind].
     eexists. split; [reflexivity|].
     assert (E : (shape_fn sid lt ++ EmitBash.nl ++ sconcat ws)%string = text) by congruence.
     rewrite <- E. rewrite <- (append_assoc (shape_fn sid lt)).
@@ -310,15 +315,16 @@ Proof.
 Qed.
 
 Lemma groups_scansG a igs texts :
+  all_tables_ok a ->
   omap (fun ig : N * list N => group_block wrapper shape_fn shape_wrapper a (fst ig) (snd ig)) igs = Ok texts ->
   exists stss, omap (fun ig : N * list N => group_stmtsG a (fst ig) (snd ig)) igs = Ok stss
                /\ scansE sh cmd (sconcat texts) (List.concat stss).
 Proof.
-  revert texts. induction igs as [|ig igs IH]; cbn [omap]; intros texts H.
+  intros Hall. revert texts. induction igs as [|ig igs IH]; cbn [omap]; intros texts H.
   - inversion H; subst. exists []. split; [reflexivity|]. apply scansE_nil.
   - apply obind_ok' in H. destruct H as [x [Hx H]]. apply obind_ok' in H. destruct H as [xs [Hxs H]].
     inversion H; subst; clear H.
-    destruct (group_scansG _ _ _ _ Hx) as [sts [Hs Hn]]. destruct (IH _ Hxs) as [stss [Hss Hnn]].
+    destruct (group_scansG _ _ _ _ Hall Hx) as [sts [Hs Hn]]. destruct (IH _ Hxs) as [stss [Hss Hnn]].
     exists (sts :: stss). split; [rewrite Hs; cbn [obind]; rewrite Hss; reflexivity|].
     cbn [sconcat List.concat]. apply scansE_app; assumption.
 Qed.
@@ -357,3 +363,12 @@ Lemma shift_if2 env t1 t2 (b : bool) rest :
   append (if b then render env t1 else render env t2) (append nl rest)
   = append nl (append (if b then render env (sh_nl t1) else render env (sh_nl t2)) rest).
 Proof. intros H1 H2. destruct b; apply shift1; assumption. Qed.
+
+Lemma scansE_app0 sh cmd t1 t2 s : scansE sh cmd t1 [] -> scansE sh cmd t2 s -> scansE sh cmd (append t1 t2) s.
+Proof. intros H1 H2. apply (scansE_app sh cmd t1 [] t2 s H1 H2). Qed.
+
+Lemma scansE_if0 sh cmd (b : bool) t : scansE sh cmd t [] -> scansE sh cmd (if b then t else EmptyString) [].
+Proof. destruct b; [auto | intros _; apply scansE_nil]. Qed.
+
+Lemma fmtln_unit' t env : fmtln t env = render env (t ++ seg_nl).
+Proof. unfold fmtln. rewrite render_app. cbn [render seg_nl]. rewrite QuoteRT.append_nil_r. reflexivity. Qed.
